@@ -17,7 +17,11 @@ let cmd_transport (_p : string) (arg : string) (impl : string) : string * string
 (* C18 through the builder API: wherever the stop handle was supplied, clearing it (or kill) makes the
    run return success, the transport is closed once and the handle's reference is given back *)
 let cmd_apiorder (_p : string) (_arg : string) (impl : string) : string * string =
-  let expect = "returned-ok closed=1 strong=1" in
+  if starts_with "late-handle" _arg then
+    ("error", if impl = "" then "-" else if impl = "error" then "ok"
+      else "FAIL:C11:a-command-through-a-handle-that-outlived-the-run-reported-success:" ^ (String.map (fun c -> if c = ' ' then '-' else c) impl)
+           ^ ",C19:send-through-a-handle-whose-runtime-has-shut-down-did-not-return-an-error") else
+  let expect = if starts_with "shared-handle" _arg then "returned-ok closed=2 strong=1 request-kept=true" else "returned-ok closed=1 strong=1 request-kept=true" in
   (expect, if impl = "" then "-" else if impl = expect then "ok"
     else "FAIL:C18:" ^ (String.map (fun c -> if c = ' ' then '-' else c) (String.sub impl 0 (min 60 (String.length impl)))))
 
@@ -33,5 +37,5 @@ let cmd_unixapi (_p : string) (arg : string) (impl : string) : string * string =
   (expect, if impl = "" then "-" else if impl = expect then "ok"
     else if starts_with "sender-address" arg then
       (* the receiver learns the sender's bound address: C19's clause, and what C09/C16 key datapaths by *)
-      "FAIL:" ^ tag ^ clean impl ^ ",C19:receiver-did-not-learn-the-sender's-bound-address"
+      "FAIL:" ^ tag ^ clean impl ^ ",C19:receiver-did-not-learn-the-sender's-bound-address,C09:two-senders-could-be-taken-for-one-datapath"
     else "FAIL:" ^ tag ^ clean impl)
